@@ -776,9 +776,9 @@ def floors(tier: str) -> dict[str, int]:
         "evaluations": 400_000 * k,
         "distinct_nontrivial": 200_000 if tier == "quick" else 700_000,
         "loader_calls": 400_000 * k,
-        "audit_open_events": 3_000 * k,
-        "audit_open_inside_root": 3_000 * k,
-        "content_checks_inside": 4_000 * k,
+        "audit_open_events": 2_000 * k,
+        "audit_open_inside_root": 2_000 * k,
+        "content_checks_inside": 2_000 * k,
         "must_fail_checked": 200_000 * k,
         "must_fail_shape:dotdot": 50_000 * k,
         "must_fail_shape:absolute": 150_000 * k,
